@@ -58,7 +58,7 @@ impl Case {
             return None;
         }
         let ty = match t[6] { "u16" => "u16", "u32" => "u32", "u64" => "u64", "i64" => "i64", _ => return None };
-        let tamper = match t[10] { "n" => "n", "hv" => "hv", "fb" => "fb", "sh" => "sh", "ax" => "ax", _ => return None };
+        let tamper = match t[10] { "n" => "n", "hv" => "hv", "fb" => "fb", "sh" => "sh", "ax" => "ax", "ml" => "ml", _ => return None };
         Some(Case {
             f1: t[0].chars().next()?,
             e1: t[1].chars().next()?,
@@ -114,7 +114,7 @@ fn all_cases() -> Vec<Case> {
     }
     cross("u32", 'e', &[0, 1], &mut out);
     // damaged stored regions: same request as at creation
-    for tamper in ["hv", "fb", "sh", "ax"] {
+    for tamper in ["hv", "fb", "sh", "ax", "ml"] {
         for &f in &FORMATS {
             for &e1 in &ENTRIES {
                 for &e2 in &ENTRIES {
@@ -304,6 +304,12 @@ fn tamper(db: &Database, c: &Case) {
                 r.truncate(10).expect("tamper sh");
             }
         }
+        "ml" => {
+            // three stray bytes behind the data: header, version and format stay intact
+            if let Some(r) = db.get_region(&ids[0]) {
+                r.write(&[9u8, 9, 9]).expect("tamper ml");
+            }
+        }
         "ax" => {
             let id = if is_raw(c.f1) { &ids[2] } else { &ids[1] };
             if let Some(r) = db.get_region(id) {
@@ -435,6 +441,15 @@ fn oracle<T: Elem>(c: &Case, ro: &Reopened<T>, regs: &str) -> Vec<String> {
             } else if !ro.holes.is_empty() || ro.probe.iter().any(|o| o.is_none()) {
                 v.push(format!("forced-import-reset-keeps-stale-holes {ctx} holes={} probe={}", show_idx(&ro.holes), show_slots(&ro.probe)));
             }
+        }
+    } else if c.tamper == "ml" && same_req && c.e2 == 'f' && c.e1 == 'f' {
+        // (created and reopened through the SAME entry point: across entry points the effective versions differ,
+        // known finding "double VERSION")
+        // "the forced import discards data only for such a mismatch or an unreadable stored header … never when
+        // version and format match": here both match and the header is readable; whatever the call returns, the
+        // stored data must still be there
+        if main_gone || (ro.kind == "ok" && ro.len == 0 && c.ndata > 0) {
+            v.push(format!("forced-import-discards-data-although-version-and-format-match {ctx}"));
         }
     } else if c.tamper == "hv" && c.e2 == 'f' && main_gone {
         // Damaged files are outside the property's quantifier (their cases are compared with the model
